@@ -297,7 +297,26 @@ def let(pat, val, body):
     """let-binding with the peephole `let x := e in x` -> e"""
     if body.strip() == pat.lstrip("'").strip():
         return val
+    if '\n' in val:
+        return 'let %s :=\n%s in\n%s' % (pat, indent(val, 2), body)
     return 'let %s := %s in\n%s' % (pat, val, body)
+
+
+def arms(scrut, *cases):
+    """match with (pattern, body) arms; multi-line bodies are indented under their arm"""
+    out = ['match %s with' % scrut]
+    for pat, body in cases:
+        out.append('| %s => %s' % (pat, body) if '\n' not in body else '| %s =>\n%s' % (pat, indent(body, 4)))
+    return '\n'.join(out + ['end'])
+
+
+def ite(c, a, b):
+    if '\n' not in a and '\n' not in b and len(c) + len(a) + len(b) < 90:
+        return 'if %s then %s else %s' % (c, a, b)
+    if b.startswith('if '):
+        return 'if %s\nthen%s\nelse %s' % (c, ' ' + a if '\n' not in a else '\n' + indent(a, 2), b)
+    return 'if %s\nthen%s\nelse%s' % (c, ' ' + a if '\n' not in a else '\n' + indent(a, 2),
+                                      ' ' + b if '\n' not in b else '\n' + indent(b, 2))
 
 
 def set_state(env, v, newname):
@@ -313,17 +332,24 @@ def bind_call(env, ctx, f, c, x, node, k):
         if w not in ctx.state:
             raise Unsupported(node, 'internal: callee writes %s which the caller does not thread' % w)
     e2 = env.fork()
+    same = (not ctx.loop or ctx.loop == 'plain') and list(f.writes) == ctx.state and f.exc == ctx.exc and f.exc
     if f.writes:
         if len(f.writes) != 1:
             raise Unsupported(node, 'callee writing more than one state component')
         sv = state_name(env, f.writes[0])
         if f.exc:
-            body = 'match r with\n| Raise e => %s\n| Ok %s => %s\nend' % (ctx.raise_(e2, 'e', node), x, k(e2))
-            return "let '(%s, r) := %s in\n%s" % (sv, c, body)
+            kt = k(e2)
+            # monad right identity: m >>= return  is  m
+            if same and ((x != '_' and kt == ctx.wrap(e2, 'Ok %s' % x)) or (f.ret == ('unit',) and kt == ctx.wrap(e2, 'Ok tt'))):
+                return c
+            return "let '(%s, r) := %s in\n%s" % (sv, c, arms('r', ('Raise e', ctx.raise_(e2, 'e', node)), ('Ok %s' % x, kt)))
         if f.ret == ('unit',):
             return let(sv, c, k(e2))
         return let("'(%s, %s)" % (sv, x), c, k(e2))
-    return 'match %s with\n| Raise e => %s\n| Ok %s => %s\nend' % (c, ctx.raise_(e2, 'e', node), x, k(e2))
+    kt = k(e2)
+    if same and ((x != '_' and kt == 'Ok %s' % x) or (f.ret == ('unit',) and kt == 'Ok tt')):
+        return c
+    return arms(c, ('Raise e', ctx.raise_(e2, 'e', node)), ('Ok %s' % x, kt))
 
 
 def assign(s, target, value, env, ctx, k):
@@ -422,7 +448,7 @@ def condition(test, env, ctx, node):
 
         def wrap(a, b):
             some, none = (a, b) if is_not else (b, a)
-            return 'match %s with\n| Some %s_v => %s\n| None => %s\nend' % (cq, cq, some, none)
+            return arms(cq, ('Some %s_v' % cq, some), ('None', none))
         return wrap, et, ee
     neg = False
     inner = test
@@ -446,8 +472,7 @@ def condition(test, env, ctx, node):
             c = '%s %s' % (fn, par(a))
             if neg:
                 c = 'negb (%s)' % c
-            return ('match dget %s %s with\n| None => %s\n| Some %s =>\n%s\nend'
-                    % (par(d), par(key), miss, fn, indent('if %s\nthen %s\nelse %s' % (c, a_, b_), 4)))
+            return arms('dget %s %s' % (par(d), par(key)), ('None', miss), ('Some %s' % fn, ite(c, a_, b_)))
         return wrap, et, ee
     c = truth(env, test)
     # membership guards make later reads of that key provably total
@@ -458,7 +483,7 @@ def condition(test, env, ctx, node):
         if dt[0] == 'dict':
             positive = isinstance(inner.ops[0], ast.In) != neg
             (et if positive else ee).guards.add((dtxt, ktxt))
-    return (lambda a, b: 'if %s\nthen %s\nelse %s' % (c, a, b)), et, ee
+    return (lambda a, b: ite(c, a, b)), et, ee
 
 
 def if_stmt(s, rest, env, ctx, tail):
@@ -533,13 +558,12 @@ def bind_sub(env, ctx, sub, term, node, k, okpat='_'):
     e2 = env.fork()
     if sub.state and sub.exc:
         S = sub.S(env)
-        return ("let '(%s, r) :=\n%s in\nmatch r with\n| Raise e => %s\n| Ok %s => %s\nend"
-                % (S, indent(term, 2), ctx.raise_(e2, 'e', node), okpat, k(e2)))
+        return "let '(%s, r) :=\n%s in\n%s" % (S, indent(term, 2), arms('r', ('Raise e', ctx.raise_(e2, 'e', node)), ('Ok %s' % okpat, k(e2))))
     if sub.state:
         S = sub.S(env)
         return let(S if len(sub.state) == 1 else "'" + S, term, k(e2))
     if sub.exc:
-        return 'match %s with\n| Raise e => %s\n| Ok %s => %s\nend' % (term, ctx.raise_(e2, 'e', node), okpat, k(e2))
+        return arms(term, ('Raise e', ctx.raise_(e2, 'e', node)), ('Ok %s' % okpat, k(e2)))
     raise Unsupported(node, 'internal: sub-computation without effect')
 
 
@@ -590,14 +614,13 @@ def for_stmt(s, env, ctx, k):
         rty = mod.T.coq(ctx.ret, False)
         acc_ty = 'res (option %s)' % rty if be.exc else 'option %s' % rty
         if be.exc:
-            body_txt = 'match acc with\n| Raise e => Raise e\n| Ok (Some r) => Ok (Some r)\n| Ok None =>\n%s\nend' % indent(body, 4)
+            body_txt = arms('acc', ('Raise e', 'Raise e'), ('Ok (Some r)', 'Ok (Some r)'), ('Ok None', body))
         else:
-            body_txt = 'match acc with\n| Some r => Some r\n| None =>\n%s\nend' % indent(body, 4)
+            body_txt = arms('acc', ('Some r', 'Some r'), ('None', body))
         acc_name, init = 'acc', ('Ok None' if be.exc else 'None')
     elif state and be.exc:
         acc_ty, acc_name = '(%s * res unit)' % Sty, 'st'
-        body_txt = ('match st with\n| (%s, Raise e) => (%s, Raise e)\n| (%s, Ok _) =>\n%s\nend'
-                    % (Spat, Spat, Spat, indent(body, 4)))
+        body_txt = arms('st', ('(%s, Raise e)' % Spat, '(%s, Raise e)' % Spat), ('(%s, Ok _)' % Spat, body))
         init = '(%s, Ok tt)' % Spat
     elif state:
         acc_ty = Sty
@@ -608,27 +631,24 @@ def for_stmt(s, env, ctx, k):
         init = Spat
     else:
         acc_ty, acc_name, init = 'res unit', 'acc', 'Ok tt'
-        body_txt = 'match acc with\n| Raise e => Raise e\n| Ok _ =>\n%s\nend' % indent(body, 4)
+        body_txt = arms('acc', ('Raise e', 'Raise e'), ('Ok _', body))
     params = ''.join(' (%s : %s)' % (n, t) for n, t in ctxparams)
     mod.emit_def(name, '%s (%s : %s) (%s : %s)' % (params, acc_name, acc_ty, elem_name, mod.T.coq(et, False)),
                  acc_ty, body_txt, s)
-    fold = 'fold_left (%s) %s %s' % (' '.join([name] + [n for n, _ in ctxparams]), par(it), init) if ctxparams \
-        else 'fold_left %s %s %s' % (name, par(it), init)
+    fold = 'fold_left %s %s %s' % (par(' '.join([name] + [n for n, _ in ctxparams])), par(it), par(init))
     # --- the loop in its function
     e2 = env.fork()
     for v in targets:
         e2.vars.pop(v, None)          # loop targets are not available after the loop
     if kind == 'return':
         if be.exc:
-            return ('match %s with\n| Raise e => %s\n| Ok (Some r) => %s\n| Ok None => %s\nend'
-                    % (fold, ctx.raise_(e2, 'e', s), ctx.ret_(e2, 'r', s), k(e2)))
-        return 'match %s with\n| Some r => %s\n| None => %s\nend' % (fold, ctx.ret_(e2, 'r', s), k(e2))
+            return arms(fold, ('Raise e', ctx.raise_(e2, 'e', s)), ('Ok (Some r)', ctx.ret_(e2, 'r', s)), ('Ok None', k(e2)))
+        return arms(fold, ('Some r', ctx.ret_(e2, 'r', s)), ('None', k(e2)))
     if state and be.exc:
-        return ('match %s with\n| (%s, Raise e) => %s\n| (%s, Ok _) => %s\nend'
-                % (fold, Spat, ctx.raise_(e2, 'e', s), Spat, k(e2)))
+        return arms(fold, ('(%s, Raise e)' % Spat, ctx.raise_(e2, 'e', s)), ('(%s, Ok _)' % Spat, k(e2)))
     if state:
         return let(Spat if len(state) == 1 else "'" + Spat, fold, k(e2))
-    return 'match %s with\n| Raise e => %s\n| Ok _ => %s\nend' % (fold, ctx.raise_(e2, 'e', s), k(e2))
+    return arms(fold, ('Raise e', ctx.raise_(e2, 'e', s)), ('Ok _', k(e2)))
 
 
 def calls_record_fn(mod, stmts, env):
